@@ -90,6 +90,22 @@ theorem relator_reduced {a : List Int} (h : SpecC10.isReduced a = true) :
 
 example : SpecC10.isReduced [1, 2, -1] = true := by decide
 
+/-! ## 2b. indexing reads the letters of the value (`impl Index<usize> for FreeWord`) -/
+
+/-- `w[k]` is the `k`-th letter of the letter list for `k < len` (the Spec's `letterAt`) … -/
+theorem get_index_spec {a : List Int} {k : Nat} (h : k < a.length) :
+    FW.index a k = .ok a[k] ∧ SpecC10.letterAt a k = some a[k] :=
+  ⟨index_ok h, by rw [← index_toOption, index_ok h]; rfl⟩
+
+example : 1 < [3, -2].length := by decide
+
+/-- … and a panic exactly beyond the end, where the word has no letter -/
+theorem get_index_panic {a : List Int} {k : Nat} (h : a.length ≤ k) :
+    FW.index a k = .panic ∧ SpecC10.letterAt a k = none :=
+  ⟨index_panic h, by rw [← index_toOption, index_panic h]; rfl⟩
+
+example : [3, -2].length ≤ 2 := by decide
+
 /-! ## 3. the operations are the group operations of `FreeGroup ℕ` -/
 
 /-- meaning of the letters: `n ↦ of n`, `-n ↦ (of n)⁻¹`, `0 ↦ 1` -/
